@@ -195,7 +195,7 @@ func (g *c18Gen) aggregate(d int) string {
 	case 2:
 		return "VAR(" + g.pick("", "DISTINCT ") + g.fieldRef() + ")"
 	case 3:
-		return "useraggr(" + g.pick("", "DISTINCT ") + g.fieldRef() + ")"
+		return g.pick("useraggr", "useraggr", "`user aggr`") + "(" + g.pick("", "DISTINCT ") + g.fieldRef() + ")"
 	default:
 		return g.pick("MIN", "MAX", "SUM", "AVG", "STDEV", "STDEVP", "VARP", "MEDIAN", "sum", "Max") + "(" + g.pick("", "", "DISTINCT ") + g.value(d-1) + ")"
 	}
@@ -224,7 +224,7 @@ func (g *c18Gen) analytic(d int) string {
 	case 4:
 		return g.pick("LAG", "LEAD", "lag") + "(" + g.fieldRef() + g.pick("", ", 1", ", 1, 0") + ")" + g.pick("", " IGNORE NULLS") + over(false)
 	case 5:
-		return g.pick("COUNT(*)", "COUNT(DISTINCT "+g.fieldRef()+")", "SUM("+g.fieldRef()+")", "AVG(DISTINCT "+g.fieldRef()+")", "useraggr("+g.fieldRef()+")", "VAR("+g.fieldRef()+")") + over(true)
+		return g.pick("COUNT(*)", "COUNT(DISTINCT "+g.fieldRef()+")", "SUM("+g.fieldRef()+")", "AVG(DISTINCT "+g.fieldRef()+")", "useraggr("+g.fieldRef()+")", "`user aggr`("+g.fieldRef()+")", "VAR("+g.fieldRef()+")") + over(true)
 	default:
 		return g.pick("LISTAGG", "JSON_AGG") + "(" + g.fieldRef() + g.pick("", ", ';'") + ")" + over(false)
 	}
